@@ -16,10 +16,13 @@ SHARED = {
     "Matrix": ["C03", "C04", "C15"],
     "W3jBounds": ["C05"],
     "W3jNorm": ["C05"],
+    "W3jUniq": ["C05"],
     "GDFamily": ["C01", "C02", "C07"],
     "DocD": ["C01", "C02", "C07"],
     "DAll": ["C01", "C02", "C07", "C03"],
     "DocHom": ["C07", "C04", "C19"],
+    "HomAll": ["C07", "C04", "C02", "C03"],
+    "FuncAlg": ["C13", "C06", "C03"],
     "FlatSteps": ["C01", "C08", "C15"],
 }
 
